@@ -116,6 +116,13 @@ def run(chk, repo, tier):
     # the coefficient vector is indexed by Noll number: the map from the number to (m, n) is one to one on every row
     from .c11 import noll_rules as _noll_rules
     _noll_rules(chk, repo, 'C12-d')
+    # the modes the fit projects onto are the modes `zernike` evaluates: normalisation and azimuthal factor of every case
+    from . import c11 as _c11
+    from .common import Remap as _Remap12
+    from ..resilient import run_nested as _run_nested12
+    nd12 = list(chk.not_decided)
+    _run_nested12(_c11, _Remap12(chk, {'C11-c': 'C12-d'}), repo, tier)
+    chk.not_decided[:] = nd12
     fcomp = repo.func('zernike.zernike_compose')
     _, paths, _ = analyse(repo, fcomp)
     ok, det = False, 'no accumulation of coeff*zernike(...) found'
